@@ -41,6 +41,18 @@ class Report:
         self.evaluations = 0
         self._distinct = set()
         self._known = load_known().get(pid, [])
+        self.analysis_errors: List[str] = []
+
+    def guarded(self, fn, *args, **kw):
+        """Run one rule group; an analysis error in it is recorded (exit 2 at the end unless a
+        violation was found elsewhere) and does not mask the other rule groups."""
+        from .loader import AnalysisError
+        try:
+            return fn(*args, **kw)
+        except AnalysisError as e:
+            self.analysis_errors.append(f"{getattr(fn, '__name__', 'rule')}: {e}")
+        except RecursionError as e:
+            self.analysis_errors.append(f"{getattr(fn, '__name__', 'rule')}: recursion limit")
 
     # ---- bookkeeping -------------------------------------------------------
     def rule(self, rid: str, desc: str):
@@ -90,7 +102,11 @@ class Report:
                     f"(anchor moved or construct no longer recognised)")
 
     def finish(self, repo_stats: Optional[dict] = None) -> int:
-        self.check_floors()
+        from .loader import AnalysisError
+        try:
+            self.check_floors()
+        except AnalysisError as e:
+            self.analysis_errors.append(str(e))
         os.makedirs(EVIDENCE_DIR, exist_ok=True)
         vdir = os.path.join(EVIDENCE_DIR, "violations")
         lines = []
@@ -117,6 +133,7 @@ class Report:
             "undecided": self.undecided[:200],
             "known_findings_rederived": [h["key"] for h in self.known_hits],
             "violations": [v["key"] for v in self.violations],
+            "analysis_errors": self.analysis_errors,
         }
         if repo_stats:
             cov.update(repo_stats)
@@ -135,6 +152,11 @@ class Report:
             json.dump(ev, f, indent=1, default=str)
         for ln in lines:
             print(ln)
+        for e in self.analysis_errors:
+            print(f"ANALYSIS-ERROR property={self.pid}: {e}")
+        if self.analysis_errors and not self.violations:
+            print(f"{self.pid} [{self.tier}] ANALYSIS-ERROR: {len(self.analysis_errors)} rule group(s) could not be decided")
+            return 2
         status = "FAIL" if self.violations else "OK"
         print(f"{self.pid} [{self.tier}] {status}: {self.evaluations} rule instances "
               f"({len(self._distinct)} distinct), {len(self.violations)} violations, "
